@@ -243,6 +243,8 @@ def jobs(tier, seed):
     ssrc = '#include "verif_sandbox.hpp"\nusing S = B32S;\n#include "C03_small.inc"\n'
     out.append(Job("C03_B32S", ssrc, [dict(name="B32S " + k, fn=check_small, kw=dict(k=k)) for k in ("k_small_malloc_int", "k_small_malloc_vs24", "k_small_accept", "k_small_assign")],
                    native=False))
+    from specs import C04
+    out.append(Job("C03_BM_failed_create", '#include "C04_bm.inc"\n', [dict(name="BM pointer read back after a failed creation elsewhere stays in its sandbox", fn=C04.check_bm_failed)], unwind=200, native=False))
     out.append(Job("C03_BM_arith", '#include "C03_bm.inc"\n', [dict(name="BM k_bm_add1", fn=check_bm_arith1, kw=dict(k="k_bm_add1", nbits=64)),
                                                                  dict(name="BM k_bm_idx1", fn=check_bm_arith1, kw=dict(k="k_bm_idx1", nbits=32))], native=False))
     from specs import C07
